@@ -767,6 +767,100 @@ impl<B, T, U, N: ArrayLength, F: Foreign2<B, T, U>> ForeignIter<U> for PlainZipP
     }
     proof fn reach_inverted_zip<B, T, U, N: ArrayLength, F: Foreign2<B, T, U>>(this: GenericArray<T, N>, lhs: GenericArray<B, N>, f: F, nd_t: bool, nd_b: bool) requires this.slots.ok(), this.slots.all_live(), lhs.slots.ok(), lhs.slots.all_live(), f.log().len() == 0, { assert(false); } /*OB:canary.inverted_zip:*/
 
+
+// ===== closure conversion (rule R-pipe) of `self.into_iter().map(f)` for a by-reference sequence (&GenericArray: slice::Iter) =====
+pub struct RefMapPipe<'a, T, U, N: ArrayLength, F: Foreign1<&'a T, U>> {
+    pub src: &'a Slots<T, N>, pub k: usize, pub f: F, pub ret: Ghost<Seq<Option<U>>>, pub _u: core::marker::PhantomData<U>,
+}
+impl<'a, T, U, N: ArrayLength, F: Foreign1<&'a T, U>> ForeignIter<U> for RefMapPipe<'a, T, U, N, F> {
+    type K = Slots<T, N>;
+    open spec fn konst(&self) -> Slots<T, N> { *self.src }
+    open spec fn returned(&self) -> Seq<Option<U>> { self.ret@ }
+    open spec fn hint(&self) -> (usize, Option<usize>) { ((N::n() - self.k) as usize, Some((N::n() - self.k) as usize)) }
+    open spec fn inv(&self) -> bool {
+        &&& self.src.ok() && self.src.all_live() && self.k <= N::n()
+        &&& self.ret@.len() >= self.k
+        &&& self.f.log().len() == self.k
+        &&& forall|j: int| 0 <= j < self.k ==> *(#[trigger] self.f.log()[j]).0 == self.src.view()[j].unwrap()
+        &&& forall|j: int| 0 <= j < self.k ==> (#[trigger] self.ret@[j]) == Some(self.f.log()[j].1)
+        &&& forall|j: int| self.k <= j < self.ret@.len() ==> (#[trigger] self.ret@[j]).is_none()
+        &&& (self.ret@.len() > self.k ==> self.k == N::n())
+    }
+    fn next(&mut self) -> (r: Option<U>)
+    {
+        // slice::Iter::next, then Map's closure call
+        if self.k >= N::usize_() {
+            proof { self.ret = Ghost(self.ret@.push(None)); }
+            return None;
+        }
+        let x = self.src.peek(self.k);
+        self.k += 1;
+        let r = self.f.call(x);
+        proof { self.ret = Ghost(self.ret@.push(Some(r))); }
+        Some(r)
+    }
+    fn size_hint(&self) -> (r: (usize, Option<usize>)) { (N::usize_() - self.k, Some(N::usize_() - self.k)) }
+}
+
+    // extracted from src/functional.rs:39  `fn map<U, F>(self, f: F) -> MappedSequence<Self, T, U> where Self: MappedGenericSequence<T, U>, F: FnMut(Self::Item) -> U,`
+    pub fn map_ref<'a, T, U, N: ArrayLength, F: Foreign1<&'a T, U>>(this: &'a Slots<T, N>, f: F) -> (ret: (PanicOr<GenericArray<U, N>>, F))
+        requires
+            this.ok(),
+            this.all_live(),
+            f.log().len() == 0,
+        ensures
+            ret.0 is Ret, /*OB:map_ref.post.never-the-length-panic:C08*/
+            ret.1.log().len() == N::n(), /*OB:map_ref.post.once-per-index:C08*/
+            forall|k: int| 0 <= k < N::n() ==> *(#[trigger] ret.1.log()[k]).0 == this.view()[k].unwrap(), /*OB:map_ref.post.ascending:C08*/
+            forall|k: int| 0 <= k < N::n() ==> (#[trigger] ret.0->Ret_0.elems()[k]) == ret.1.log()[k].1, /*OB:map_ref.post.result-k-at-index-k:C08*/
+    {
+        let mut pipe = RefMapPipe {
+            src: this, k: 0, f: f, ret: Ghost(Seq::empty()), _u: core::marker::PhantomData
+        };
+        proof {
+            assert(pipe.inv());
+        }
+        let r = from_iter::<U, N, RefMapPipe<T, U, N, F>>(&mut pipe);
+        proof {
+            assert(pipe.k == N::n());
+            assert forall|k: int| 0 <= k < N::n() implies (#[trigger] r->Ret_0.elems()[k]) == pipe.f.log()[k].1 by {
+                assert(pipe.returned()[k] == Some(r->Ret_0.elems()[k]));
+                assert(pipe.ret@[k] == Some(pipe.f.log()[k].1));
+            }
+        }
+        let RefMapPipe {
+            src: _, k: _, f, ret: _, _u: _
+        }
+        = pipe;
+        (r, f)
+    }
+    proof fn reach_map_ref<'a, T, U, N: ArrayLength, F: Foreign1<&'a T, U>>(this: &'a Slots<T, N>, f: F) requires this.ok(), this.all_live(), f.log().len() == 0, { assert(false); } /*OB:canary.map_ref:*/
+
+    // extracted from src/impls.rs:22  `fn clone(&self) -> GenericArray<T, N>`
+    pub fn clone_array<'a, T, N: ArrayLength, F: Foreign1<&'a T, T>>(this: &'a Slots<T, N>, clone: F) -> (ret: (PanicOr<GenericArray<T, N>>, F))
+        requires
+            this.ok(),
+            this.all_live(),
+            clone.log().len() == 0,
+        ensures
+            ret.0 is Ret && ret.1.log().len() == N::n() && forall|k: int| 0 <= k < N::n() ==> *(#[trigger] ret.1.log()[k]).0 == this.view()[k].unwrap(), /*OB:clone_array.post.clone-once-per-element-in-order:C08*/
+            forall|k: int| 0 <= k < N::n() ==> (#[trigger] ret.0->Ret_0.elems()[k]) == ret.1.log()[k].1, /*OB:clone_array.post.clone-k-at-index-k:C08*/
+    {
+        map_ref::<T, T, N, F>(this, clone)
+    }
+    proof fn reach_clone_array<'a, T, N: ArrayLength, F: Foreign1<&'a T, T>>(this: &'a Slots<T, N>, clone: F) requires this.ok(), this.all_live(), clone.log().len() == 0, { assert(false); } /*OB:canary.clone_array:*/
+
+    // extracted from src/impls.rs:15  `fn default() -> Self`
+    pub fn default_array<T, N: ArrayLength, F: Foreign1<usize, T>>(default_: &mut F) -> (ret: GenericArray<T, N>)
+        requires
+            old(default_).log().len() == 0,
+        ensures
+            final(default_).log().len() == N::n() && forall|k: int| 0 <= k < N::n() ==> ret.elems()[k] == (#[trigger] final(default_).log()[k]).1, /*OB:default_array.post.default-once-per-element:C08*/
+    {
+        generate::<T, N, F>(default_)
+    }
+    proof fn reach_default_array<T, N: ArrayLength, F: Foreign1<usize, T>>(default_: F) requires default_.log().len() == 0, { assert(false); } /*OB:canary.default_array:*/
+
 proof fn canary() { assert(false); } /*OB:canary:*/
 } // verus!
 fn main() {}
